@@ -84,6 +84,61 @@ def make_special_case(rng, kind):
                 return dict(edges=edges, weights=weights, massive=massive, ext=ext, D=D, accepted=True, table=table, dod=dod, loops=Lf,
                             name="integer_dod:" + name)
             continue
+        if kind == "unit_j":
+            # propagator powers of exactly 2 (and 4): J of the two-edge subgraph {a, b} is 1/2 + 1/2 = 1.0 exactly, the value J has for
+            # a single edge
+            name = rng.choice(["triangle", "box", "bubble_leg", "kite", "double_triangle"])
+            edges, mp, _ = gen.relabel(rng, list(gen.CATALOGUE[name]))
+            n = len(edges)
+            D = rng.choice([4, 6, 6])
+            massive = [rng.random() < 0.3 for _ in range(n)]
+            ext = list(mp)
+            weights = [rng.choice([2.0, 2.0, 4.0, 1.5, 2.5]) for _ in range(n)]
+            i, j = rng.sample(range(n), 2)
+            weights[i] = weights[j] = 2.0
+            dod, Lf, table = oracle.table_oracle(edges, weights, massive, ext, D)
+            if not oracle.divergent_subsets(table) and dod > Fraction(1, 20):
+                return dict(edges=edges, weights=weights, massive=massive, ext=ext, D=D, accepted=True, table=table, dod=dod, loops=Lf,
+                            name="unit_j:" + name)
+            continue
+        if kind in ("repeated_weights", "weights_equal_dod"):
+            # exact coincidences among the propagator powers: the same power at NON-adjacent edge positions (first and last included) with
+            # another one in between / two or more powers bit-equal to the overall degree of divergence (Gamma factors that "cancel")
+            name = rng.choice(["triangle", "box", "sunrise", "double_triangle", "banana4", "bubble_leg"])
+            edges, mp, _ = gen.relabel(rng, list(gen.CATALOGUE[name]))
+            n = len(edges)
+            D = rng.choice([3, 4, 4, 6]) if kind == "weights_equal_dod" else rng.randint(2, 4)
+            massive = [rng.random() < 0.5 for _ in range(n)]
+            ext = list(mp)
+            L = oracle.subset_info(edges, massive, ext, (1 << n) - 1)[0]
+            if kind == "repeated_weights":
+                a, b = rng.choice([(1.5, 0.7), (0.9, 1.3), (2.5, 0.6), (0.35, 1.75), (1.25, 3.0)])
+                sc = max(1.0, (L * D / 2.0 + 0.3) / (a * ((n + 1) // 2) + b * (n // 2)))
+                sc = math.ceil(sc * 4) / 4.0
+                weights = [(a if i % 2 == 0 else b) * sc for i in range(n)]
+                if n % 2 == 0:
+                    weights[-1] = weights[0]          # first == last with others in between
+            else:
+                # t = dod for the first k edges: k t + s - L D / 2 = t  =>  t = (L D / 2 - s) / (k - 1)
+                k = rng.choice([2, 2, 3]) if n >= 3 else 2
+                if n - k < 1:
+                    continue
+                s_rest = [rng.choice([0.25, 0.5, 0.75, 1.0]) for _ in range(n - k)]
+                t = Fraction(L * D, 2) - Fraction(sum(s_rest))
+                t = t / (k - 1)
+                if t <= 0 or float(t) != t:
+                    continue
+                order = list(range(n)); rng.shuffle(order)
+                weights = [0.0] * n
+                for j, i in enumerate(order):
+                    weights[i] = float(t) if j < k else s_rest[j - k]
+            dod, Lf, table = oracle.table_oracle(edges, weights, massive, ext, D)
+            if kind == "weights_equal_dod" and sum(1 for w in weights if Fraction(w) == dod) < 2:
+                continue
+            if not oracle.divergent_subsets(table) and dod > Fraction(1, 20):
+                return dict(edges=edges, weights=weights, massive=massive, ext=ext, D=D, accepted=True, table=table, dod=dod, loops=Lf,
+                            name=kind + ":" + name)
+            continue
         if kind == "vacuum_massless":
             # no external vertex and no edge flagged massive: every non-empty subset is mass-momentum spanning, the empty one is not
             name = rng.choice(["bubble", "sunrise", "triangle", "box"])
@@ -239,6 +294,11 @@ def point(rng, dim, kind="uniform", n_edges=None):
         # their first powers are not
         for i in rng.sample(xi_slots, min(len(xi_slots), rng.randint(1, 2))):
             xs[i] = 10.0 ** -rng.uniform(8, 13)
+    elif kind == "zero_last_xi" and xi_slots:
+        # only the LAST removed edge gets the parameter 0 (legal point; L usually stays positive definite: the edge just drops out)
+        xs = [min(max(x, 5e-324), 1 - 2.0 ** -53) for x in xs]
+        xs[xi_slots[-1]] = 0.0
+        return xs
     elif kind == "zero_xi" and xi_slots:
         i = rng.choice(xi_slots)
         xs = [min(max(x, 5e-324), 1 - 2.0 ** -53) for x in xs]
@@ -333,6 +393,19 @@ def generate(ctx, n_graphs, pts, max_e=6, max_loops=3, kinds=("uniform", "unifor
             for k, routing in enumerate(routings):
                 out.append(dict(case=c, routing=routing, table=b["table"], built=b, xs=xs, kind=kind, group=(id(c), i),
                                 routing_index=k, req=sample_request(c, routing, b["table"], xs)))
+    return out
+
+
+def big_dimension_cases(rng):
+    """D = 260 (beyond one byte; D is an unbounded const generic) and D = 13 (D L = 13: odd and beyond the usual range): one-loop graphs"""
+    out = []
+    for D, edges, weights, massive in ((260, [(0, 1), (0, 1)], [66.0, 66.0], [False, False]), (260, [(0, 1), (0, 1)], [70.0, 70.25], [True, True]),
+                                       (13, [(0, 1), (0, 1)], [3.5, 3.75], [True, False]), (13, [(0, 1), (1, 2), (2, 0)], [2.5, 2.25, 2.5], [False, True, False])):
+        edges2, mp, _ = gen.relabel(rng, edges)
+        ext = list(mp)
+        dod, Lf, table = oracle.table_oracle(edges2, weights, massive, ext, D)
+        if not oracle.divergent_subsets(table) and dod > 0:
+            out.append(dict(edges=edges2, weights=weights, massive=massive, ext=ext, D=D, accepted=True, table=table, dod=dod, loops=Lf, name=f"big_dimension:D={D}"))
     return out
 
 
